@@ -5,6 +5,7 @@
 set -u
 NAME=$1; WT=$(realpath $2); shift 2
 CHECKS=${@:-C01 C02 C03 C04 C05 C06 C07 C08 C09 C10 C11 C12 C13 C14 C15 C16 C17 C18 C19 C20}
+HOME_V=${VERIF_HOME:-/verif}     # a snapshot of /verif may be used so that edits in /verif do not disturb a long evaluation
 OUT=/verif/refactors/$NAME
 mkdir -p $OUT
 cp $WT/patch.diff $OUT/patch.diff
@@ -15,7 +16,7 @@ git -C $S apply $OUT/patch.diff; AP=$?
 T=$(cd $S && PYTHONPATH=$S /venv/bin/python -m pytest -q -p no:cacheprovider unittests 2>&1 | tail -1)
 RES=""; ALARMS=""
 if [ $AP -eq 0 ]; then
-  cd /verif
+  cd $HOME_V
   for c in $CHECKS; do
     E=$(mktemp -d /tmp/refev.XXXX)
     VERIF_REPO=$S VERIF_EVIDENCE_DIR=$E VERIF_REPLAYS_DIR=$E/replays timeout 1800 /venv/bin/python harness/check.py $c --tier quick > $OUT/check_$c.out 2>&1; rc=$?
